@@ -262,6 +262,10 @@ func cmdCheck(args []string) int {
 		if res.Missing {
 			fmt.Fprintf(os.Stderr, "UNDECIDED %s: contract anchor missing: %s\n", id, res.Err)
 			nUndecided++
+			// a function under contract no longer exists under that name: the
+			// check cannot vouch for the property on this tree (exit 2, unless a
+			// baseline obligation also fails)
+			broken = true
 			continue
 		}
 		if res.Err != "" {
@@ -395,6 +399,19 @@ func cmdCheck(args []string) int {
 	if *only == "" {
 		for _, b := range sortedKeys(baseline) {
 			if !seen[b] {
+				if strings.Contains(b, "/assert:") && strings.Contains(b, "/call#") {
+					// an assertion the contract attaches to a particular call was
+					// discharged on the pinned tree and can no longer even be
+					// stated: the call it guards is gone (replaced, reordered or
+					// removed). The obligation is not re-established: reported.
+					dir := filepath.Join(verifDir(), "replays", id, smtIdent(strings.ReplaceAll(b, "/", "__")))
+					os.MkdirAll(dir, 0o755)
+					os.WriteFile(filepath.Join(dir, "REPORT.txt"), []byte("obligation "+b+"\nwas discharged on the pinned tree; on this tree the call site it is anchored at no longer exists,\nso the assertion about that call cannot be established (no solver query, no failing input).\n"), 0o644)
+					nViol++
+					violationLines = append(violationLines, fmt.Sprintf("VIOLATION property=%s replay=%s no-failing-input-found", id, dir))
+					fmt.Fprintf(os.Stderr, "failed obligation %s [anchor-gone] the call this assertion guards no longer exists\n", b)
+					continue
+				}
 				fmt.Fprintf(os.Stderr, "UNDECIDED %s: baseline obligation %s is no longer generated\n", id, b)
 				nUndecided++
 			}
